@@ -191,7 +191,14 @@ def run_random(chk, h, tier, broken, model_ok):
     if tier == "thorough":
         lens += [2, 3, 100, 511, 513, 768, 1000, 65536, 65537, 2 ** 20 + 1, 3 * 2 ** 20]
     drv = vlib.DriverProc(PATHSDRIVER)
-    model = drv.batch([f"random {n}" for n in lens], timeout=3000) if model_ok else None
+    # the list-based model needs ~90 s for 2^20 bytes: in the quick tier lengths above 64 KiB are checked on the
+    # real code against the property only (the theorem random_get_total covers every length)
+    cap = 65536 if tier == "quick" else 1 << 62
+    model = None
+    if model_ok:
+        mo = drv.batch([f"random {n}" for n in lens if n <= cap], timeout=3000)
+        it = iter(mo)
+        model = [next(it) if n <= cap else None for n in lens]
     for i, n in enumerate(lens):
         r = h.ask(f"random {n}")
         chk.count_case(("random", n), True, {"line": f"random {n}", "real": r, "model": model[i] if model else None} if n in (257, 2 ** 20) else None)
@@ -200,9 +207,10 @@ def run_random(chk, h, tier, broken, model_ok):
             key = "random-get-over-256" if n > 256 else "random-get-fails"
             chk.violation(key, f"random_get(len={n}): real `{r}` (errno, bytes of the region written, outside changed), the property requires `{exp}`",
                           {"kind": "random", "len": n, "real": r, "expected": exp}, True)
-        if model is not None and model[i] != r:
+        if model is not None and model[i] is not None and model[i] != r:
             broken.append({"kind": "correspondence", "msg": f"random {n}: real `{r}` model `{model[i]}`"})
     chk.coverage["random_lengths"] = lens
+    chk.coverage["random_lengths_model_compared"] = [n for n in lens if n <= cap]
 
 
 def run_exit(chk, h, tier, broken, model_ok):
